@@ -48,11 +48,15 @@ def envelope(tag_v2, tag_v1, payloads, a, alg=1):
         raw = ksi.tlv(tag_v1[0], h + pl + (ksi.tlv(0x1f, mac) if a["mac"] != "missing" else b""))
         if a["mac"] == "bad":
             raw = raw[:-3] + bytes([raw[-3] ^ 0x10]) + raw[-2:]
+        if a["mac"] == "badlast":
+            raw = raw[:-1] + bytes([raw[-1] ^ 0x01])
         return raw
     body = b"".join(ksi.tlv(t, b) for t, b in payloads)
     raw = ksi.pdu_v2(tag_v2, LOGIN, key, [body], alg=macalg, header=(a["hdr"] == "ok"), mac=(a["mac"] != "missing"))
     if a["mac"] == "bad":
         raw = raw[:-5] + bytes([raw[-5] ^ 0x04]) + raw[-4:]
+    if a["mac"] == "badlast":                  # only the very last octet of the digest (= of the PDU) differs
+        raw = raw[:-1] + bytes([raw[-1] ^ 0x01])
     return raw
 
 
@@ -149,7 +153,7 @@ def new_cal_chain(rng, src, pub, aggr, shape_aggr=None, alter_rlink=False):
     return links
 
 
-def ext_reply(a, rng, rid, src, aggr, pub_req):
+def ext_reply(a, rng, rid, src, aggr, pub_req, alter_without_cal=False):
     """-> (bytes | None, dict(pub, links, inp, root)) for attribute vector a"""
     if a["what"] == "close":
         return None, None
@@ -170,7 +174,7 @@ def ext_reply(a, rng, rid, src, aggr, pub_req):
         pub += 1 << 32
     field_aggr = aggr + 1 if a["aggrtime"] == "other" else aggr + (1 << 32) if a["aggrtime"] == "wide" else aggr
     shape_for = ((aggr + 1) if aggr + 1 <= pub else aggr - 1) if (a["shape"] == "bad" or a["aggrtime"] == "other") else aggr
-    links = new_cal_chain(rng, src, pub, aggr, shape_aggr=shape_for, alter_rlink=(a["rlinks"] == "altered" and src.cal is not None))
+    links = new_cal_chain(rng, src, pub, aggr, shape_aggr=shape_for, alter_rlink=(a["rlinks"] == "altered" and (src.cal is not None or alter_without_cal)))
     if links is None:
         return "unrealisable", None
     root_in = src.root()[0]
